@@ -264,6 +264,12 @@ def judge(ctx, case):
         expect_b = [r.decode(a).encode(b) for r in recs_a]
     else:
         msgs = messages(ctx, rng, a, legacy, case.get('big'))
+        if fin == 'vbs' and a in ('cp500', 'cp037') and case['salt'] % 3 == 0 and not case.get('big'):
+            # blank-filled text elements, the way real EBCDIC files look: the unblocked file then carries x'40' x'40' exactly
+            # where a 1014-blocked file has its fill bytes (offsets 1012-1013, 2026-2027) - it is still an unblocked file
+            msgs.insert(0, {'MTI': '1240', 'DE2': '4444555566667777', 'DE54': ' ' * 990, 'DE72': 'A' + ' ' * 997 + 'Z',
+                            'DE111': ' ' * 999, 'DE127': ' ' * 600 + 'END'})
+            ctx.count('unblocked EBCDIC message files with blanks where a blocked file has its fill')
         if case.get('big'):
             ctx.count('conversions of inputs over 1 MiB')
         if case.get('defaults'):
@@ -355,6 +361,8 @@ def require(m):
     for tool in ('mci_ipm_encode', 'mci_ipm_param_encode', 'paramconv'):
         if not m['counters'].get('parser route without -o: %s' % tool) and not m['violations']:
             reasons.append('%s never run from its argument parser without -o' % tool)
+    if not m['counters'].get('unblocked EBCDIC message files with blanks where a blocked file has its fill') and not m['violations']:
+        reasons.append('no blank-aligned unblocked EBCDIC message file')
     if not m['counters'].get('conversions of inputs over 1 MiB'):
         reasons.append('no input over 1 MiB converted')
     if m['counters'].get('unblocked parameter files with fill-valued bytes where a blocked file has its fill', 0) < 3 and not m['violations']:
